@@ -40,6 +40,143 @@ theorem Adj.map {α β : Type} {R : β → β → Prop} (f : α → β) :
   | [_], _ => trivial
   | _ :: _ :: _, ⟨h1, h2⟩ => ⟨h1, Adj.map f h2⟩
 
+/-! ## request programs and request contexts -/
+
+theorem updStart_assoc (a b : Option Rat) (t : Rat) :
+    updStart a (updStart b (some t)) = updStart (updStart a b) (some t) := by
+  cases a with
+  | none => cases b <;> simp only [updStart] <;> split_ifs <;> rfl
+  | some x =>
+    cases b with
+    | none => simp [updStart]
+    | some y =>
+      simp only [updStart]
+      by_cases h1 : t < y <;> by_cases h2 : y < x <;> simp only [h1, h2, if_true, if_false] <;> split_ifs <;>
+        first | rfl | (congr 1; linarith)
+
+theorem updEnd_assoc (a b : Option Rat) (t : Rat) :
+    updEnd a (updEnd b (some t)) = updEnd (updEnd a b) (some t) := by
+  cases a with
+  | none => cases b <;> simp only [updEnd] <;> split_ifs <;> rfl
+  | some x =>
+    cases b with
+    | none => simp [updEnd]
+    | some y =>
+      simp only [updEnd]
+      by_cases h1 : t > y <;> by_cases h2 : y > x <;> simp only [h1, h2, if_true, if_false] <;> split_ifs <;>
+        first | rfl | (congr 1; linarith)
+
+theorem exitInto_onStart (c p : RCtx) (t : Rat) : (c.onStart t).exitInto p = (c.exitInto p).onStart t := by
+  simp only [RCtx.exitInto, RCtx.onStart, updStart_assoc]
+
+theorem exitInto_onEnd (c p : RCtx) (t : Rat) : (c.onEnd t).exitInto p = (c.exitInto p).onEnd t := by
+  simp only [RCtx.exitInto, RCtx.onEnd, updEnd_assoc]
+
+theorem unwindInto_onStart (t : Rat) : ∀ (rest : List RCtx) (c : RCtx),
+    unwindInto (c.onStart t) rest = (unwindInto c rest).onStart t
+  | [], _ => rfl
+  | p :: rest, c => by simp only [unwindInto, exitInto_onStart]; exact unwindInto_onStart t rest _
+
+theorem unwindInto_onEnd (t : Rat) : ∀ (rest : List RCtx) (c : RCtx),
+    unwindInto (c.onEnd t) rest = (unwindInto c rest).onEnd t
+  | [], _ => rfl
+  | p :: rest, c => by simp only [unwindInto, exitInto_onEnd]; exact unwindInto_onEnd t rest _
+
+theorem empty_exitInto (c : RCtx) : RCtx.empty.exitInto c = c := by
+  cases c; simp [RCtx.exitInto, RCtx.empty, updStart, updEnd]
+
+/-- first request sent … last response received, as the endpoint saw it -/
+def spanOf (log : List (Rat × Rat)) : RCtx := ⟨log.head?.map Prod.fst, log.getLast?.map Prod.snd⟩
+
+structure PInv (t0 : Rat) (s : PState) : Prop where
+  t0_le : t0 ≤ s.now
+  ne : s.stack ≠ []
+  bounds : ∀ x ∈ s.log, t0 ≤ x.1 ∧ x.1 ≤ x.2 ∧ x.2 ≤ s.now
+  last : ∀ l, s.log.getLast? = some l → l.2 = s.now
+  span : unwind s.stack = spanOf s.log
+
+section prog
+variable {r : Rat → Rat} (hr : ∀ x, r x = x)
+include hr
+
+theorem le_sleep' (now d : Rat) : now ≤ sleep r now d := by
+  simp only [sleep, hr]; split <;> linarith
+
+theorem runProg_inv (t0 : Rat) : ∀ (ts : List Tok) (s : PState), PInv t0 s → PInv t0 (runProg r ts s)
+  | [], s, h => h
+  | .enter :: ts, s, h => by
+    simp only [runProg]
+    apply runProg_inv t0 ts
+    refine ⟨h.t0_le, by simp, h.bounds, h.last, ?_⟩
+    have hne := h.ne
+    cases hs : s.stack with
+    | nil => exact absurd hs hne
+    | cons c rest =>
+      have := h.span
+      rw [hs] at this
+      simp only [unwind, unwindInto, empty_exitInto]
+      exact this
+  | .exit :: ts, s, h => by
+    simp only [runProg]
+    split
+    · rename_i c p rest hs
+      apply runProg_inv t0 ts
+      refine ⟨h.t0_le, by simp, h.bounds, h.last, ?_⟩
+      have := h.span
+      rw [hs] at this
+      exact this
+    · exact runProg_inv t0 ts s h
+  | .wire gap service fails :: ts, s, h => by
+    have h1 := le_sleep' hr s.now gap
+    have h2 := le_sleep' hr (sleep r s.now gap) service
+    set t1 := sleep r s.now gap with ht1
+    set t2 := sleep r t1 service with ht2
+    have hnew : PInv t0 { now := t2, stack := onTop (fun c => (c.onStart t1).onEnd t2) s.stack, log := s.log ++ [(t1, t2)], failed := fails } := by
+      refine ⟨by have := h.t0_le; simp only; linarith, ?_, ?_, ?_, ?_⟩
+      · have hne := h.ne
+        cases hs : s.stack with
+        | nil => exact absurd hs hne
+        | cons c rest => simp [onTop]
+      · intro x hx
+        simp only [List.mem_append, List.mem_singleton] at hx
+        rcases hx with hx | rfl
+        · have := h.bounds x hx
+          exact ⟨this.1, this.2.1, by simp only; linarith [this.2.2]⟩
+        · exact ⟨by have := h.t0_le; simp only; linarith, h2, le_refl _⟩
+      · intro l hl
+        simp at hl
+        rw [← hl]
+      · have hne := h.ne
+        cases hs : s.stack with
+        | nil => exact absurd hs hne
+        | cons c rest =>
+          have hsp := h.span
+          rw [hs] at hsp
+          simp only [unwind] at hsp
+          simp only [onTop, unwind, unwindInto_onEnd, unwindInto_onStart, hsp]
+          -- stamping the span of the old log gives the span of the extended log
+          cases hlog : s.log with
+          | nil => simp [spanOf, RCtx.onStart, RCtx.onEnd, updStart, updEnd]
+          | cons a as =>
+            have ha := h.bounds a (by rw [hlog]; exact List.mem_cons_self)
+            have hl : (a :: as).getLast? = some ((a :: as).getLast (by simp)) := List.getLast?_eq_some_getLast (by simp)
+            have hlast := h.last _ (by rw [hlog]; exact hl)
+            have hgl : ((a :: as) ++ [(t1, t2)]).getLast? = some (t1, t2) := List.getLast?_concat
+            have hhd : ((a :: as) ++ [(t1, t2)]).head? = some a := by simp
+            simp only [spanOf, RCtx.onStart, RCtx.onEnd, hgl, hhd, hl, Option.map_some, List.head?_cons, updStart, updEnd]
+            have e1 : (if t1 < a.1 then some t1 else some a.1) = some a.1 := by
+              rw [if_neg]; have := ha.2.2; linarith
+            have e2 : (if t2 > ((a :: as).getLast (by simp)).2 then some t2 else some ((a :: as).getLast (by simp)).2) = some t2 := by
+              split
+              · rfl
+              · congr 1; linarith
+            rw [e1, e2]
+    simp only [runProg]
+    split
+    · exact hnew
+    · exact runProg_inv t0 ts _ hnew
+end prog
+
 /-! ## the clock -/
 
 section clock
@@ -70,9 +207,49 @@ theorem genDone_le_procStart (st : St) (q : Req) : genDone c st q ≤ procStartO
     · exact le_refl _
   · exact le_refl _
 
-theorem procStart_le_reqStart (st : St) (q : Req) : procStartOf c st q ≤ reqStartOf c st q := le_sleep hr _ _
-theorem reqStart_le_reqEnd (st : St) (q : Req) : reqStartOf c st q ≤ reqEndOf c st q := le_sleep hr _ _
-theorem reqEnd_le_procEnd (st : St) (q : Req) : reqEndOf c st q ≤ procEndOf c st q := le_sleep hr _ _
+theorem progOf_inv (st : St) (q : Req) : PInv (procStartOf c st q) (progOf c st q) :=
+  runProg_inv hr _ _ _ ⟨le_refl _, by simp, by simp, by simp, rfl⟩
+
+/-- the executor's request context spans exactly first request sent … last response received -/
+theorem reqCtx_eq_span (st : St) (q : Req) : reqCtxOf c st q = spanOf (progOf c st q).log := (progOf_inv hr st q).span
+
+theorem procStart_le_reqStart (st : St) (q : Req) : procStartOf c st q ≤ reqStartOf c st q := by
+  have h := progOf_inv hr st q
+  unfold reqStartOf
+  rw [reqCtx_eq_span hr]
+  cases hl : (progOf c st q).log with
+  | nil => simp [spanOf]
+  | cons a as => simp [spanOf]; exact (h.bounds a (by rw [hl]; exact List.mem_cons_self)).1
+
+theorem reqEnd_le_progNow (st : St) (q : Req) : reqEndOf c st q ≤ (progOf c st q).now := by
+  have h := progOf_inv hr st q
+  unfold reqEndOf
+  rw [reqCtx_eq_span hr]
+  cases hl : (progOf c st q).log.getLast? with
+  | none => simp [spanOf, hl]
+  | some l => simp [spanOf, hl]; exact le_of_eq (h.last l hl)
+
+theorem reqStart_le_reqEnd (st : St) (q : Req) : reqStartOf c st q ≤ reqEndOf c st q := by
+  have h := progOf_inv hr st q
+  unfold reqStartOf reqEndOf
+  rw [reqCtx_eq_span hr]
+  cases hl : (progOf c st q).log with
+  | nil => simp [spanOf]; exact h.t0_le
+  | cons a as =>
+    have ha := h.bounds a (by rw [hl]; exact List.mem_cons_self)
+    have hgl : (a :: as).getLast? = some ((a :: as).getLast (by simp)) := List.getLast?_eq_some_getLast (by simp)
+    have := h.last _ (by rw [hl]; exact hgl)
+    simp only [spanOf, List.head?_cons, Option.map_some, Option.getD_some, hgl]
+    linarith [ha.2.1, ha.2.2]
+
+theorem progNow_le_procEnd (st : St) (q : Req) : (progOf c st q).now ≤ procEndOf c st q := by
+  unfold procEndOf
+  split
+  · exact le_refl _
+  · exact le_sleep hr _ _
+
+theorem reqEnd_le_procEnd (st : St) (q : Req) : reqEndOf c st q ≤ procEndOf c st q :=
+  le_trans (reqEnd_le_progNow hr st q) (progNow_le_procEnd hr st q)
 
 theorem now_le_procEnd (st : St) (q : Req) : st.now ≤ procEndOf c st q :=
   le_trans (now_le_genDone hr st q) <| le_trans (genDone_le_procStart hr st q) <|
@@ -92,6 +269,98 @@ theorem absSched_le_procStart (st : St) (q : Req) (ht : throttledOf c st q = tru
 
 end clock
 
+/-! ## what reaches the endpoint does not depend on the nesting of request contexts -/
+
+theorem runProg_log_prefix (r : Rat → Rat) : ∀ (ts : List Tok) (s : PState), ∃ l, (runProg r ts s).log = s.log ++ l
+  | [], s => ⟨[], by simp [runProg]⟩
+  | .enter :: ts, s => by simp only [runProg]; exact runProg_log_prefix r ts _
+  | .exit :: ts, s => by
+    simp only [runProg]
+    split
+    · exact runProg_log_prefix r ts _
+    · exact runProg_log_prefix r ts _
+  | .wire g sv f :: ts, s => by
+    simp only [runProg]
+    split
+    · exact ⟨_, rfl⟩
+    · obtain ⟨l, hl⟩ := runProg_log_prefix r ts
+        { now := sleep r (sleep r s.now g) sv, stack := onTop (fun c => (c.onStart (sleep r s.now g)).onEnd (sleep r (sleep r s.now g) sv)) s.stack,
+          log := s.log ++ [(sleep r s.now g, sleep r (sleep r s.now g) sv)], failed := f }
+      exact ⟨(sleep r s.now g, sleep r (sleep r s.now g) sv) :: l, by rw [hl]; simp⟩
+
+/-- the wire requests of a program, context management removed -/
+def flat : List Tok → List Tok
+  | [] => []
+  | .wire g sv f :: ts => .wire g sv f :: flat ts
+  | _ :: ts => flat ts
+
+/-- clock, endpoint log and failure flag are those of the flattened program, whatever the stack of contexts -/
+theorem runProg_flat (r : Rat → Rat) : ∀ (ts : List Tok) (s s' : PState), s.now = s'.now → s.log = s'.log → s.failed = s'.failed →
+    (runProg r ts s).now = (runProg r (flat ts) s').now ∧ (runProg r ts s).log = (runProg r (flat ts) s').log ∧
+    (runProg r ts s).failed = (runProg r (flat ts) s').failed
+  | [], s, s', h1, h2, h3 => ⟨h1, h2, h3⟩
+  | .enter :: ts, s, s', h1, h2, h3 => by simp only [runProg, flat]; exact runProg_flat r ts _ s' h1 h2 h3
+  | .exit :: ts, s, s', h1, h2, h3 => by
+    simp only [runProg, flat]
+    split
+    · exact runProg_flat r ts _ s' h1 h2 h3
+    · exact runProg_flat r ts _ s' h1 h2 h3
+  | .wire g sv f :: ts, s, s', h1, h2, h3 => by
+    simp only [runProg, flat, h1, h2]
+    split
+    · exact ⟨rfl, rfl, rfl⟩
+    · exact runProg_flat r ts _ _ rfl rfl rfl
+
+section span
+variable {c : Cfg} (hr : ∀ x, c.r x = x)
+include hr
+
+/-- **nesting is transparent**: the executor's request context after running a program is the one it would have if every
+    wire request had been issued directly in it -/
+theorem reqCtx_flat (st : St) (q : Req) :
+    reqCtxOf c st q = reqCtxOf c st { q with prog := flat q.prog } ∧
+    (progOf c st q).log = (progOf c st { q with prog := flat q.prog }).log ∧
+    (progOf c st q).now = (progOf c st { q with prog := flat q.prog }).now := by
+  have hps : procStartOf c st { q with prog := flat q.prog } = procStartOf c st q := rfl
+  have h := runProg_flat c.r q.prog
+    { now := procStartOf c st q, stack := [RCtx.empty], log := [], failed := false }
+    { now := procStartOf c st q, stack := [RCtx.empty], log := [], failed := false } rfl rfl rfl
+  refine ⟨?_, h.2.1, h.1⟩
+  rw [reqCtx_eq_span hr, reqCtx_eq_span hr]
+  unfold progOf
+  rw [hps]
+  exact congrArg spanOf h.2.1
+
+/-- a sampled request: at least one wire request, `request_start` = first sent, `request_end` = last received -/
+theorem stamps_span (st : St) (q : Req) (h : hasStamps c st q = true) :
+    ∃ first last, (progOf c st q).log.head? = some first ∧ (progOf c st q).log.getLast? = some last ∧
+      reqStartOf c st q = first.1 ∧ reqEndOf c st q = last.2 := by
+  unfold hasStamps at h
+  unfold reqStartOf reqEndOf
+  rw [reqCtx_eq_span hr] at h ⊢
+  simp only [spanOf, Bool.and_eq_true, Option.isSome_map] at h
+  obtain ⟨first, hf⟩ := Option.isSome_iff_exists.mp h.1
+  obtain ⟨last, hl⟩ := Option.isSome_iff_exists.mp h.2
+  exact ⟨first, last, hf, hl, by simp [spanOf, hf], by simp [spanOf, hl]⟩
+
+theorem reqStart_of_first_wire (st : St) (q : Req) {g sv : Rat} {f : Bool} {rest : List Tok}
+    (hq : q.prog = .wire g sv f :: rest) : reqStartOf c st q = sleep c.r (procStartOf c st q) g := by
+  unfold reqStartOf
+  rw [reqCtx_eq_span hr]
+  unfold progOf
+  rw [hq]
+  simp only [runProg]
+  split
+  · simp [spanOf]
+  · obtain ⟨l, hl⟩ := runProg_log_prefix c.r rest
+      { now := sleep c.r (sleep c.r (procStartOf c st q) g) sv,
+        stack := onTop (fun x => (x.onStart (sleep c.r (procStartOf c st q) g)).onEnd (sleep c.r (sleep c.r (procStartOf c st q) g) sv)) [RCtx.empty],
+        log := [] ++ [(sleep c.r (procStartOf c st q) g, sleep c.r (sleep c.r (procStartOf c st q) g) sv)], failed := f }
+    rw [hl]
+    simp [spanOf]
+
+end span
+
 /-! ## inversion of `step` -/
 
 theorem step_sampled_inv {c : Cfg} {st : St} {q : Req} {rec : Rec} {st' : St}
@@ -110,9 +379,23 @@ theorem step_sampled_inv {c : Cfg} {st : St} {q : Req} {rec : Rec} {st' : St}
     · rename_i ops unit m he
       split at h
       · cases h
-      · rename_i sched' ha
-        injection h with h1 h2
-        exact ⟨ops, unit, m, sched', by simpa using hc, he, ha, h1.symm, h2.symm⟩
+      · split at h
+        · cases h
+        · rename_i sched' ha
+          injection h with h1 h2
+          exact ⟨ops, unit, m, sched', by simpa using hc, he, ha, h1.symm, h2.symm⟩
+
+/-- a request that produced a sample had both timestamps set by at least one wire request -/
+theorem step_sampled_stamps {c : Cfg} {st : St} {q : Req} {rec : Rec} {st' : St}
+    (h : step c st q = .sampled rec st') : hasStamps c st q = true := by
+  unfold step at h
+  split at h
+  · cases h
+  · split at h
+    · cases h
+    · split at h
+      · cases h
+      · rename_i hs; simpa using hs
 
 /-! ## generic induction principles over `go` -/
 
@@ -263,7 +546,7 @@ def unsampledTuples : Stop → Nat
   | _ => 0
 
 theorem go_shape (c : Cfg) : ∀ (reqs : List Req) (st : St),
-    (go c reqs st).recs.map (fun r => (r.reqStart, r.reqEnd)) = (go c reqs st).wire.take (go c reqs st).recs.length ∧
+    (go c reqs st).recs.map (·.wires) = (go c reqs st).wire.take (go c reqs st).recs.length ∧
     (go c reqs st).recs.map (·.tup) = (go c reqs st).tuples.take (go c reqs st).recs.length ∧
     (go c reqs st).wire.length = (go c reqs st).recs.length + raisedCount (go c reqs st).stop ∧
     (go c reqs st).tuples.length = (go c reqs st).recs.length + unsampledTuples (go c reqs st).stop := by
@@ -329,7 +612,7 @@ theorem go_consumed (c : Cfg) : ∀ (reqs : List Req) (st : St),
     ∃ rest, Consumed (Produces c) reqs (go c reqs st).recs rest ∧
       ((go c reqs st).stop = .sourceExhausted → rest = []) ∧
       (∀ cause, (go c reqs st).stop = .raised cause → ∃ q rest', rest = q :: rest' ∧
-        (executeSingle c.abort q.out = .raise cause ∨ cause = .unitMismatch ∨ cause = .zeroDivision)) := by
+        (executeSingle c.abort q.out = .raise cause ∨ cause = .unitMismatch ∨ cause = .zeroDivision ∨ cause = .noTimestamps)) := by
   intro reqs
   induction reqs with
   | nil =>
@@ -356,12 +639,16 @@ theorem go_consumed (c : Cfg) : ∀ (reqs : List Req) (st : St),
         · split at hs
           · injection hs with h1; left; rw [← h1]; assumption
           · split at hs
-            · rename_i cause2 hcause2
-              injection hs with h1
-              subst h1
-              right
-              exact afterRequest_error hcause2
-            · cases hs
+            · injection hs with h1; right; right; right; exact h1.symm
+            · split at hs
+              · rename_i cause2 hcause2
+                injection hs with h1
+                subst h1
+                right
+                rcases afterRequest_error hcause2 with h | h
+                · exact Or.inl h
+                · exact Or.inr (Or.inl h)
+              · cases hs
       · rename_i rec0 st' hs
         obtain ⟨ops, unit, m, sched', _, he, _, hrec, _⟩ := step_sampled_inv hs
         have hprod : Produces c q rec0 := ⟨ops, unit, m, he, by simp [hrec, recOf, sampleOf]⟩
@@ -398,6 +685,57 @@ theorem drain_eq_take (cap : Nat) (l : List Sample) : drain cap l = l.take cap :
   unfold drain
   rw [foldl_samplerAdd cap l [] (Nat.zero_le _)]
   simp
+
+/-! ## the sampler queue with a concurrent reader -/
+
+/-- the sampler owns exactly one queue object: `self.q` is bound once -/
+def SOne {α : Type} (st : SState α) : Prop := st.cur = 0 ∧ st.ref = 0 ∧ ∃ q, st.queues = [q]
+
+/-- everything the sampler has been given and not lost: drained batches, the queue, reported drops -/
+def SState.content {α : Type} (st : SState α) : List α := st.batches.flatten ++ st.queues.getD st.cur [] ++ st.dropped
+
+theorem sstep_one {α : Type} (cap : Nat) (st : SState α) (e : SEv α) (h : SOne st) : SOne (sstep cap st e) := by
+  obtain ⟨h1, h2, q, h3⟩ := h
+  cases e with
+  | evalPut => exact ⟨h1, h1, q, h3⟩
+  | build => exact ⟨h1, h2, q, h3⟩
+  | call s =>
+    simp only [sstep]
+    split
+    · exact ⟨h1, h2, q ++ [s], by simp [h2, h3]⟩
+    · exact ⟨h1, h2, q, h3⟩
+  | drain => exact ⟨h1, h2, [], by simp [sstep, h1, h3]⟩
+
+theorem sstep_content {α : Type} (cap : Nat) (st : SState α) (e : SEv α) (h : SOne st) :
+    List.Perm (sstep cap st e).content (st.content ++ calls [e]) := by
+  obtain ⟨h1, h2, q, h3⟩ := h
+  cases e with
+  | evalPut => simp [sstep, calls, SState.content]
+  | build => simp [sstep, calls, SState.content]
+  | call s =>
+    simp only [sstep]
+    split
+    · simp only [SState.content, calls, h1, h2, h3, List.getD_cons_zero, List.set_cons_zero, List.append_assoc]
+      apply List.Perm.append_left
+      apply List.Perm.append_left
+      exact List.perm_append_comm
+    · simp [SState.content, calls]
+  | drain =>
+    simp [sstep, calls, SState.content, h1, h3]
+
+/-- **conservation under every interleaving**: whatever sequence of micro-steps of `add` and drains of the other thread,
+    every sample handed to `put_nowait` is — exactly once — in a drained batch, still queued, or a reported drop -/
+theorem srun_content {α : Type} (cap : Nat) : ∀ (es : List (SEv α)) (st : SState α), SOne st →
+    List.Perm (srun cap es st).content (st.content ++ calls es)
+  | [], st, _ => by simp [srun, calls]
+  | e :: es, st, h => by
+    have h1 := srun_content cap es (sstep cap st e) (sstep_one cap st e h)
+    have h2 := sstep_content cap st e h
+    simp only [srun]
+    refine h1.trans ?_
+    have h3 : calls (e :: es) = calls [e] ++ calls es := by cases e <;> simp [calls]
+    rw [h3, ← List.append_assoc]
+    exact List.Perm.append_right _ h2
 
 /-! ## one client's run, all inputs bundled -/
 
@@ -1110,7 +1448,7 @@ def demoTask : TaskP :=
     completesParent := false, anyCompletesParent := false }
 
 def okReq (service : Rat) : Req :=
-  { gen := 0, pre := 1 / 1024, service := service, post := 1 / 1024, draw := 0, out := .tuple 1 opsUnit,
+  { gen := 0, prog := [.wire (1 / 1024) service false], post := 1 / 1024, draw := 0, out := .tuple 1 opsUnit,
     rc := none, rp := none, sp := none }
 
 end Exec
